@@ -559,7 +559,8 @@ def compile_assign(
         if let_scope:
             target = let_scope.add(target)
 
-    if result.temp_variables and isinstance(target, Symbol):
+    if result.temp_variables and isinstance(target, Symbol) and ann is None:
+        # (An annotated assignment needs its own statement.)
         result.rename(compiler, compiler._nonconst(target))
         if not is_assignment_expr:
             # Throw away .expr to ensure that (setv ...) returns None.
